@@ -86,6 +86,27 @@ Proof.
 Qed.
 Print Assumptions C06_lookup_in_every_built_tree.
 
+(* ... and it holds exactly the declared routes: for EVERY list of route texts that begin with '/' and whose
+   patterns (names erased) are pairwise distinct - hertz refuses a second registration of the same pattern -
+   and EVERY registration order, a route is in the built tree iff it was declared ... *)
+Theorem C06_built_tree_holds_exactly_the_declared_routes : forall (pats : list bs) (order : list nat),
+  (forall i, In i order -> exists r, nth i pats [] = sl :: r) ->
+  NoDup (map (fun i => pattern_of (nth i pats [])) order) ->
+  forall r, In r (paths (build_from empty_root pats order)) <-> In r (declared pats order).
+Proof. exact built_tree_routes. Qed.
+Print Assumptions C06_built_tree_holds_exactly_the_declared_routes.
+
+(* ... so the lookup in the compressed tree built by addRoute IS the documented priority search over the
+   declared routes (with C06_dispatch: it returns the best matching declared pattern) *)
+Theorem C06_tree_lookup_is_the_search_over_the_declared_routes :
+  forall (pats : list bs) (order : list nat) (s : bs) (f : nat),
+  (forall i, In i order -> exists r, nth i pats [] = sl :: r) ->
+  NoDup (map (fun i => pattern_of (nth i pats [])) order) -> order <> [] ->
+  short (S f) (declared pats order) ->
+  ft (build_from empty_root pats order) s = option_map fst (find (S f) (declared pats order) s).
+Proof. exact built_tree_lookup. Qed.
+Print Assumptions C06_tree_lookup_is_the_search_over_the_declared_routes.
+
 Theorem C06_wf_check_is_sound : forall n, wfb n = true -> wf n.
 Proof. exact wfb_sound. Qed.
 Print Assumptions C06_wf_check_is_sound.
